@@ -485,7 +485,7 @@ impl<'a> Gen<'a> {
             7 if unsafe_ && t >= 6 => -(self.rng.range(1, 100) as i128),
             8 if self.rng.chance(1, 3) => {
                 // amounts far beyond any value's length (shl of a non-zero value this far is skipped by the envelope)
-                *self.rng.pick(&[(1i128 << 32) - 1, 1 << 32, (1 << 32) + 1, (1 << 31) - 1, u64::MAX as i128, i64::MAX as i128, u32::MAX as i128 * 64])
+                *self.rng.pick(&[(1i128 << 32) - 1, 1 << 32, (1 << 32) + 1, (1 << 31) - 1, u64::MAX as i128, i64::MAX as i128, u32::MAX as i128 * 64, 1 << 70, (1 << 70) + 63, i128::MAX, -1 /* u128::MAX after the cast */, 1 << 64, (1 << 64) * 64])
             }
             _ => self.rng.below(300) as i128,
         };
